@@ -51,6 +51,7 @@ EDGE_TOL = Fr(1, 10 ** 6)      # points closer than this x (longest side of the 
 Z_TOL = Fr(1, 10 ** 9)         # elevations closer than this to a layer boundary / surface are excluded
 CLIP_TOL = 1e-3                # the property's own threshold for dropped corner clips
 BCP_RAISED_SURFACE_TOLERATED = True
+ULPS = 256 * 2.0 ** -52        # float noise allowed on a coordinate of magnitude 1 (positions are computed at coordinate magnitude)
 
 
 # ------------------------------------------------------------------ exact planar geometry (independent of /repo)
@@ -596,10 +597,10 @@ def parse_model_qtree(reply):
 
 
 def qtree_equal(a, b, scale):
-    """same shape and elements; bounds equal up to float rounding of 0.5*(a+b)"""
+    """same shape and elements; bounds equal up to float rounding of 0.5*(a+b) (`scale` = absolute tolerance)"""
     if isinstance(b, str) or len(a) != len(b):
         return False
-    tol = Fr(1, 10 ** 11) * Fr(scale)
+    tol = Fr(scale)
     for (g1, r1, e1), (g2, r2, e2) in zip(a, b):
         if g1 != g2 or e1 != e2:
             return False
@@ -612,7 +613,7 @@ def qtree_equal(a, b, scale):
 def qtree_tie(gc, real_dump, scale):
     """is some element centre within rounding distance of a split line / boundary of its node without the float
     and the exact computation being identical?  (then the float tree and the exact tree may legitimately differ)"""
-    tol = Fr(1, 10 ** 9) * Fr(scale)
+    tol = Fr(scale)
     for gen, (a, b), elts in real_dump:
         if len(elts) > 1:
             for ax in (0, 1):
@@ -724,6 +725,8 @@ def run_geo(ctx, res, gc, rng, npoints, fixed_points=None, fixed_z=None, all_gue
     lines = [gc.encode()]
     expect = [('geo', None, None)]
     scale = max(gc.x1 - gc.x0, gc.y1 - gc.y0, 1.0)
+    # the float tree halves rectangles with 0.5*(a+b): up to one ulp of the coordinate magnitude per level
+    btol = 64 * 2.0 ** -52 * max(abs(gc.x0), abs(gc.x1), abs(gc.y0), abs(gc.y1), scale)
     # quadtree
     try:
         with quiet():
@@ -738,6 +741,7 @@ def run_geo(ctx, res, gc, rng, npoints, fixed_points=None, fixed_z=None, all_gue
     lines.append('qt - %s %s' % (ep(FP(b[0])), ep(FP(b[1]))))
     expect.append(('qt', real_dump, None))
     extras = make_extras(gc, rng)
+    located = []
     pts = [('corpus', tuple(p), None) for p in (fixed_points or [])] + (gen_points(gc, rng, npoints) if npoints else [])
     for kind, p, hint in pts:
         status, inside = gc.locate_exact(p)
@@ -752,6 +756,7 @@ def run_geo(ctx, res, gc, rng, npoints, fixed_points=None, fixed_z=None, all_gue
             continue
         res.hyp['UniqueAt (at most one column contains the point)'][0] += 1
         E = inside[0] if inside else None
+        located.append((p, E))
         inbox = gc.x0 <= p[0] <= gc.x1 and gc.y0 <= p[1] <= gc.y1
         res.count('point:%s:%s' % (kind, 'inside-column' if E is not None else ('outside-in-bbox' if inbox else 'outside-bbox')))
         res.count('geometry:%s' % label.split('-')[0])
@@ -860,21 +865,55 @@ def run_geo(ctx, res, gc, rng, npoints, fixed_points=None, fixed_z=None, all_gue
                 lce = g.layer_containing_elevation(z)
             lines.append('lce ' + er(F(z)))
             expect.append(('lce', None if lce is None else g.layerlist.index(lce), dict(z=z)))
+    # a quadtree over a subset of the columns (column_quadtree(columns)): its own bounds, its own all_elements
+    if len(gc.cols) >= 4 and located:
+        sub = sorted(rng.sample(range(len(gc.cols)), max(2, len(gc.cols) // 2)))
+        try:
+            with quiet():
+                qt2 = g.column_quadtree([gc.cols[i] for i in sub])
+            dump2 = dump_real_qtree(gc, qt2)
+        except Exception as e:
+            vio(res, 'quadtree-build-raises:' + type(e).__name__, '%s: column_quadtree(columns) raises %s' % (label, type(e).__name__), dict(kind='qtree', recipe=gc.recipe))
+            qt2 = None
+        if qt2 is not None:
+            # its bounds are the bounding box of the nodes of those columns
+            pts2 = [q for i in sub for q in gc.polys[i]]
+            want = ((min(q[0] for q in pts2), min(q[1] for q in pts2)), (max(q[0] for q in pts2), max(q[1] for q in pts2)))
+            if dump2[0][1] != want or dump2[0][2] != sub:
+                vio(res, 'quadtree-subset-root', '%s: column_quadtree(columns): root bounds/elements are not those of the given columns' % label, dict(kind='qtree', recipe=gc.recipe))
+            for pr in oracle_qtree(gc, dump2):
+                vio(res, 'quadtree-partition', '%s (subset tree): %s' % (label, pr), dict(kind='qtree', recipe=gc.recipe))
+            lines.append('qt %s %s %s' % (enats(sub), ep(dump2[0][1][0]), ep(dump2[0][1][1])))
+            expect.append(('qt', dump2, None))
+            for p, E in rng.sample(located, min(len(located), 12)):
+                r = call_ccp(gc, p, dict(qtree=True), extras, qt2)
+                res.count('aids:qtree-over-column-subset')
+                case = dict(kind='point', recipe=gc.recipe, p=list(p), aid=dict(qtree_subset=sub), expected=E)
+                if isinstance(r, str):
+                    vio(res, 'ccp-raises:' + r[4:], '%s: column_containing_point(%r, subset quadtree) raises %s' % (label, p, r[4:]), case)
+                elif r is not None and r != E:
+                    vio(res, 'ccp-wrong-column' if E is not None else 'ccp-outside-found',
+                        '%s: point %r: exact search gives %r but the search with a quadtree over a column subset returns %r' % (label, p, E, r), case)
+                lines.append(req_ccp(p, dict(qtree=True), extras))
+                expect.append(('ccp', r, dict(p=list(p), aid=dict(qtree=True), alabel='qtree-subset')))
     # model
     if ctx.model_ok:
         out = core.run_driver('drv_c12', lines)
         qt_ok = True
         qt_exact = False
-        xl = sorted(set(v for _, (a, b), _ in real_dump for v in (a[0], b[0])))
-        yl = sorted(set(v for _, (a, b), _ in real_dump for v in (a[1], b[1])))
-        ltol = Fr(scale) / 10 ** 9
+        cur = {'xl': [], 'yl': []}
+
+        def set_lines(dump):
+            cur['xl'] = sorted(set(v for _, (a, b), _ in dump for v in (a[0], b[0])))
+            cur['yl'] = sorted(set(v for _, (a, b), _ in dump for v in (a[1], b[1])))
+        ltol = Fr(btol)
 
         def leaf_tie(p):
             """the point is within rounding distance of a split line of the (float) tree and the float and exact trees
             are not identical there: the two may legitimately descend into different leaves"""
             P = FP(p)
-            return any(abs(P[0] - v) <= ltol and (P[0] != v or not qt_exact) for v in xl) or \
-                any(abs(P[1] - v) <= ltol and (P[1] != v or not qt_exact) for v in yl)
+            return any(abs(P[0] - v) <= ltol and (P[0] != v or not qt_exact) for v in cur['xl']) or \
+                any(abs(P[1] - v) <= ltol and (P[1] != v or not qt_exact) for v in cur['yl'])
         for (kind, real, info), reply in zip(expect, out):
             if kind == 'geo':
                 if reply != 'ok':
@@ -882,9 +921,11 @@ def run_geo(ctx, res, gc, rng, npoints, fixed_points=None, fixed_z=None, all_gue
                 continue
             if kind == 'qt':
                 fq['cases'] += 1
+                qt_ok, qt_exact = True, False
+                set_lines(real)
                 md = parse_model_qtree(reply)
-                if not qtree_equal(real, md, scale):
-                    if qtree_tie(gc, real, scale):
+                if not qtree_equal(real, md, btol):
+                    if qtree_tie(gc, real, btol):
                         res.unstable += 1
                         qt_ok = False
                     else:
@@ -906,7 +947,7 @@ def run_geo(ctx, res, gc, rng, npoints, fixed_points=None, fixed_z=None, all_gue
                     bx = [Fr(x) for x in bs.split(',')]
                     m = (((bx[0], bx[1]), (bx[2], bx[3])), [int(x) for x in es.split(',')] if es else [])
                 same = (m is None and real is None) or (m is not None and real is not None and not isinstance(real, str) and m[1] == real[1]
-                                                        and all(abs(u - v) <= Fr(scale) / 10 ** 11 for u, v in zip(m[0][0] + m[0][1], real[0][0] + real[0][1])))
+                                                        and all(abs(u - v) <= Fr(btol) for u, v in zip(m[0][0] + m[0][1], real[0][0] + real[0][1])))
                 if not same and leaf_tie(info['p']):
                     res.unstable += 1
                 elif not same:
@@ -1035,12 +1076,12 @@ def oracle_track(gc, a, b, track, exact, flags):
     length = {ci: float(sum(t1 - t0 for t0, t1 in iv)) * L for ci, iv in exact.items()}
     tol = {ci: CLIP_TOL * gc.side[ci] for ci in set(list(exact) + names)}
     for ci in exact:
-        if ci not in names and length[ci] > 1.01 * tol[ci] + 1e-9 * mag:
+        if ci not in names and length[ci] > 1.01 * tol[ci] + ULPS * mag:
             probs.append(('track-column-dropped', 'column %r is crossed over %.6g (%.3g x its clip tolerance) but is not in the track'
                           % (gc.cols[ci].name, length[ci], length[ci] / tol[ci])))
     tins = []
     for ci, pi, po in track:
-        eps = (1e-6 * gc.side[ci] + 1e-9 * mag)
+        eps = (1e-6 * gc.side[ci] + ULPS * mag)
         ts = []
         for q in (pi, po):
             Q = FP(q)
@@ -1053,14 +1094,14 @@ def oracle_track(gc, a, b, track, exact, flags):
         if ci not in exact:
             probs.append(('track-extra-column', 'column %r is listed but the line does not cross it' % (gc.cols[ci].name,)))
             continue
-        if length[ci] < 0.99 * tol[ci] - 1e-9 * mag:
+        if length[ci] < 0.99 * tol[ci] - ULPS * mag:
             probs.append(('track-clip-listed', 'column %r is listed although crossed over only %.3g x its clip tolerance' % (gc.cols[ci].name, length[ci] / tol[ci])))
         iv = exact[ci]
         if abs(ts[0] - float(iv[0][0])) * L > eps or abs(ts[1] - float(iv[-1][1])) * L > eps:
             probs.append(('track-wrong-interval', 'column %r: entry/exit parameters (%.9g, %.9g) but the line is inside it on %s'
                           % (gc.cols[ci].name, ts[0], ts[1], [(float(x), float(y)) for x, y in iv])))
     for k in range(1, len(tins)):
-        e = (1e-6 * max(gc.side[names[k]], gc.side[names[k - 1]]) + 1e-9 * mag) / L
+        e = (1e-6 * max(gc.side[names[k]], gc.side[names[k - 1]]) + ULPS * mag) / L
         if tins[k][0] < tins[k - 1][0] - e:
             probs.append(('track-order', 'segments %d and %d are not ordered along the line' % (k - 1, k)))
         if 'nonconvex-multi' not in flags:
@@ -1079,7 +1120,7 @@ def oracle_track(gc, a, b, track, exact, flags):
         total = sum(to - ti for ti, to in tins) * L
         inside = sum(length.values())
         dropped = sum(length[ci] for ci in exact if ci not in names)
-        if abs(total - (inside - dropped)) > sum(1e-6 * gc.side[ci] for ci in names) + 1e-9 * mag * (len(names) + 1):
+        if abs(total - (inside - dropped)) > sum(1e-6 * gc.side[ci] for ci in names) + ULPS * mag * (len(names) + 1):
             probs.append(('track-length-sum', 'segment lengths add up to %.9g, the line is inside the domain over %.9g (dropped clips %.3g)' % (total, inside, dropped)))
     return probs
 
@@ -1126,7 +1167,7 @@ def run_tracks(ctx, res, gc, rng, n, fixed_lines=None):
             same = not isinstance(track, str) and len(segs) == len(track)
             if same:
                 for (mc, mpi, mpo), (rc, rpi, rpo) in zip(segs, track):
-                    e = 1e-6 * gc.side[mc] + 1e-9 * mag if mc < len(gc.side) else 0
+                    e = 1e-6 * gc.side[mc] + ULPS * mag if mc < len(gc.side) else 0
                     if mc != rc or any(abs(float(u) - v) > e for u, v in zip(mpi + mpo, rpi + rpo)):
                         same = False
             if not same:
@@ -1305,9 +1346,62 @@ def run_geom_fns(ctx, res, rng, n):
                 res.disagreements.append(dict(facet='geom_fns', case=dict(fn=kind, **{k: v for k, v in info.items()}), model=reply[:200], impl=str(real)[:200]))
 
 
+# ------------------------------------------------------------------ measured reach (thorough tier)
+
+ANCHORED = {'geometry.py': ['in_polygon', 'in_rectangle', 'rectangles_intersect', 'sub_rectangles', 'bounds_of_points',
+                            'line_polygon_intersections', 'line_intersects_rectangle', 'clip', 'in_unit'],
+            'mulgrids.py': ['search_wave', 'search', 'leaf', 'get_bounding_box', 'near_point', 'contains_point', 'contains_elevation',
+                            'column_containing_point', 'layer_containing_elevation', 'block_name_containing_point', 'block_contains_point',
+                            'column_track', 'track_dist', 'column_quadtree', 'get_bounds']}
+
+
+def measure_reach(ctx, res):
+    """statements of the anchored functions executed by a quick-sized run of all facets (a facet cannot notice a change
+    to a line it never runs)"""
+    import ast, coverage
+    srcs = [str(core.REPO / f) for f in ANCHORED]
+    cov = coverage.Coverage(include=srcs, data_file=None)
+    cov.start()
+    try:
+        c2 = core.Ctx(ctx.prop, 'quick', ctx.seed)
+        c2.model_ok = False
+        try:
+            run(c2, scale=0.5, reach=False)
+        finally:
+            c2.cleanup()
+    finally:
+        cov.stop()
+    tot = hit = 0
+    unexecuted = []
+    for f, names in ANCHORED.items():
+        src = str(core.REPO / f)
+        an = cov.analysis2(src)
+        stmts, missing = set(an[1]), set(an[3])
+        tree = ast.parse(open(src).read())
+        for n in ast.walk(tree):
+            if isinstance(n, ast.FunctionDef) and n.name in names and not (f == 'mulgrids.py' and n.name in ('search', 'leaf') and n.lineno > 200):
+                lines = [l for l in range(n.lineno + 1, n.end_lineno + 1) if l in stmts]
+                miss = [l for l in lines if l in missing]
+                tot += len(lines)
+                hit += len(lines) - len(miss)
+                unexecuted += ['%s:%s:%d' % (f, n.name, l) for l in miss]
+        # quadtree.__init__
+        for n in ast.walk(tree):
+            if isinstance(n, ast.ClassDef) and n.name == 'quadtree':
+                for m in n.body:
+                    if isinstance(m, ast.FunctionDef) and m.name == '__init__':
+                        lines = [l for l in range(m.lineno + 1, m.end_lineno + 1) if l in stmts]
+                        miss = [l for l in lines if l in missing]
+                        tot += len(lines)
+                        hit += len(lines) - len(miss)
+                        unexecuted += ['%s:quadtree.__init__:%d' % (f, l) for l in miss]
+    res.stats['reach:anchored-statements-executed'] = '%d/%d' % (hit, tot)
+    res.stats['reach:unexecuted'] = ', '.join(unexecuted) or '-'
+
+
 # ------------------------------------------------------------------ check entry points
 
-def run(ctx, scale=1.0, only_oracle=False):
+def run(ctx, scale=1.0, reach=True):
     import importlib, geometry, mulgrids
     importlib.reload(geometry)
     importlib.reload(mulgrids)
@@ -1336,6 +1430,8 @@ def run(ctx, scale=1.0, only_oracle=False):
         if len(res.samples) < 6:
             res.sample(dict(geometry=label, columns=len(gc.cols), layers=len(gc.layers), recipe=str(recipe)[:200]))
     res.exhaustive = False
+    if reach and not ctx.quick:
+        measure_reach(ctx, res)
     return res
 
 
@@ -1350,7 +1446,7 @@ def search(ctx, seconds, res):
         c2 = core.Ctx(ctx.prop, ctx.tier, ctx.seed + 1000 * k)
         c2.model_ok = False
         try:
-            r = run(c2, scale=0.7)
+            r = run(c2, scale=0.7, reach=False)
         finally:
             c2.cleanup()
         found = r.violations
